@@ -263,3 +263,157 @@ class BootImage(Base):
 
     def observe(self, c, a, out):
         return {'kind': out.kind, 'exc': out.exc, 'problems': getattr(a, 'problems', None)}
+
+
+# ------------------------------------------------------------------------------------------------------------------
+# C12 at whole-image level: isohybrid system area, decoded independently (MBR, GPT per UEFI 2.x, APM not decoded)
+# ------------------------------------------------------------------------------------------------------------------
+ISOLINUX = bytes(0x40) + b'\xfb\xc0\x78\x70' + bytes((i * 11 + 1) & 0xff for i in range(2048 - 0x44))      # 2048 bytes with the isohybrid signature
+
+HYBRIDS = {
+    'default': (dict(), dict(mbr_id=0x12345678), []),
+    'geometry-and-entry': (dict(), dict(part_entry=3, mbr_id=1, part_offset=0, geometry_sectors=63, geometry_heads=255, part_type=0x83), [('file', '/AFTER.;1', 5000)]),
+    'boot-file-moves': (dict(), dict(mbr_id=7), [('file', '/0EARLY.;1', 70000), ('dir', '/D'), ('file', '/D/X.;1', 3)]),
+    'efi': (dict(), dict(mbr_id=9, efi=True), [('file', '/Z.;1', 4097)]),
+    'efi-mac': (dict(), dict(mbr_id=9, mac=True), []),
+}
+
+
+def crc32(data):
+    import zlib
+    return zlib.crc32(bytes(data)) & 0xffffffff
+
+
+def concrete_crc32_hook(it, fv, args, kwargs):
+    """callee contract of isohybrid.crc32 on CONCRETE bytes: the standard CRC-32 (that the real function computes exactly this is
+    proved for every state and byte by the C12 units Crc32Step / Crc32Whole); the table-driven loop over 16 KiB is not re-executed"""
+    from pyvc.values import Unsupported
+    items = V.items_of(args[0])
+    if not all(isinstance(x, int) for x in items):
+        raise Unsupported('crc32 of symbolic bytes in a scenario')
+    return crc32(items)
+
+
+def read_gpt(im, lba, nsectors512):
+    off = lba * 512
+    h = im.cbytes(off, 92)
+    g = dict(sig=h[:8], rev=h[8:12], hsize=int.from_bytes(h[12:16], 'little'), crc=int.from_bytes(h[16:20], 'little'), cur=int.from_bytes(h[24:32], 'little'),
+             backup=int.from_bytes(h[32:40], 'little'), first=int.from_bytes(h[40:48], 'little'), last=int.from_bytes(h[48:56], 'little'), guid=h[56:72],
+             parts_lba=int.from_bytes(h[72:80], 'little'), nparts=int.from_bytes(h[80:84], 'little'), psize=int.from_bytes(h[84:88], 'little'),
+             parts_crc=int.from_bytes(h[88:92], 'little'))
+    if g['sig'] != b'EFI PART':
+        im.bad('GPT header at LBA %d has no EFI PART signature' % lba)
+        return g
+    if crc32(h[:16] + b'\x00\x00\x00\x00' + h[20:g['hsize']]) != g['crc']:
+        im.bad('GPT header CRC wrong at LBA %d' % lba)
+    if g['cur'] != lba:
+        im.bad('GPT header at LBA %d says it is at %d' % (lba, g['cur']))
+    arr = im.cbytes(g['parts_lba'] * 512, g['nparts'] * g['psize'])
+    if crc32(arr) != g['parts_crc']:
+        im.bad('GPT partition array CRC wrong (header at LBA %d)' % lba)
+    g['parts'] = []
+    for i in range(g['nparts']):
+        e = arr[i * g['psize']:(i + 1) * g['psize']]
+        if e[:16] != bytes(16):
+            g['parts'].append(dict(type=e[:16], first=int.from_bytes(e[32:40], 'little'), last=int.from_bytes(e[40:48], 'little'), name=e[56:128]))
+    return g
+
+
+@contract
+class HybridImage(Base):
+    """C12 on whole images: after add_isohybrid (and later edits that move the boot files) the written image starts with an MBR
+    that ends in 55 AA, carries the given id, has exactly one active partition - in the slot asked for, of the type asked for,
+    starting at the offset asked for and covering the whole padded image - and names four times the sector at which the El
+    Torito boot file really starts; the image is a whole number of cylinders long and, up to the volume size, still a valid ISO
+    whose files read their bytes; with EFI, primary and backup GPT have valid header and array CRCs, point at each other, and
+    their EFI partition delimits exactly the sectors of the EFI boot image."""
+    target = S.PC + '.write_fp'
+    variant = 'default'
+    crosscheck = False
+    hooks = {'pycdlib.isohybrid.crc32': concrete_crc32_hook}
+    label = property(lambda self: 'pycdlib.PyCdlib.write_fp<hybrid:%s>' % self.variant)
+
+    def setup(self, c):
+        S.pin_environment(c)
+        a = c.a
+        kw, hyb, later = HYBRIDS[self.variant]
+        iso = S.new_image(c, **kw)
+        a.contents = {'/ISOLINUX.BIN;1': ISOLINUX}
+        S.call(c, iso, 'add_fp', S.data_file(c, ISOLINUX), len(ISOLINUX), iso_path='/ISOLINUX.BIN;1')
+        S.call(c, iso, 'add_eltorito', '/ISOLINUX.BIN;1', bootcatfile='/BOOT.CAT;1', boot_load_size=4, boot_info_table=False)
+        a.efi_path = None
+        if hyb.get('efi') or hyb.get('mac'):
+            a.efi_data = c.bytes('efi_image', 6000)
+            a.contents['/EFI.IMG;1'] = a.efi_data
+            S.call(c, iso, 'add_fp', S.data_file(c, a.efi_data), 6000, iso_path='/EFI.IMG;1')
+            S.call(c, iso, 'add_eltorito', '/EFI.IMG;1', efi=True)
+            a.efi_path = '/EFI.IMG;1'
+            if hyb.get('mac'):
+                a.mac_data = c.bytes('mac_image', 2049)
+                a.contents['/MAC.IMG;1'] = a.mac_data
+                S.call(c, iso, 'add_fp', S.data_file(c, a.mac_data), 2049, iso_path='/MAC.IMG;1')
+                S.call(c, iso, 'add_eltorito', '/MAC.IMG;1', efi=True)
+        S.call(c, iso, 'add_isohybrid', **hyb)
+        for op in later:
+            if op[0] == 'file':
+                data = c.bytes('later%d' % len(a.contents), op[2])
+                a.contents[op[1]] = data
+                S.call(c, iso, 'add_fp', S.data_file(c, data), op[2], iso_path=op[1])
+            else:
+                S.call(c, iso, 'add_directory', iso_path=op[1])
+        a.iso = iso
+        a.out = c.file(b'')
+        return Call([a.out], self_obj=iso)
+
+    def post(self, c, a, out):
+        img = list(a.out.items) if c.symbolic else list(a.out.getvalue())
+        kw, hyb, later = HYBRIDS[self.variant]
+        cl = {}
+        try:
+            im, res = R.read_iso(img)
+            et = read_eltorito(im)
+            tree = R.logical_tree(im, res['root'])
+        except (R.Bad, KeyError, IndexError) as e:
+            a.problems = [repr(e)]
+            return {'independent-reader-can-decode-the-image': False}
+        iso_bytes = res['pvd']['space_size'] * 2048
+        heads, secs = hyb.get('geometry_heads', 64), hyb.get('geometry_sectors', 32)
+        cyl = heads * secs * 512
+        cl['image-is-a-whole-number-of-cylinders'] = len(img) % cyl == 0 and len(img) >= iso_bytes
+        if not (hyb.get('efi') or hyb.get('mac')):
+            cl['only-zero-padding-follows-the-iso'] = all(isinstance(x, int) and x == 0 for x in img[iso_bytes:])
+        mbr = im.cbytes(0, 512)
+        cl['mbr-signature'] = mbr[510:512] == b'\x55\xaa'
+        boot_sector = et['entries'][0]['rba'] if et else -1
+        cl['mbr-names-four-times-the-boot-file-sector'] = int.from_bytes(mbr[432:440], 'little') == 4 * boot_sector and tree.get(b'/ISOLINUX.BIN;1', (0, [(None, 0)]))[1][0][0] == boot_sector
+        cl['mbr-id'] = int.from_bytes(mbr[440:444], 'little') == hyb['mbr_id']
+        parts = [mbr[446 + 16 * i:446 + 16 * (i + 1)] for i in range(4)]
+        active = [i for i, p in enumerate(parts) if p[0] == 0x80]
+        slot = hyb.get('part_entry', 1) - 1
+        want_type = hyb.get('part_type', 0 if (hyb.get('efi') or hyb.get('mac')) else 0x17)
+        p = parts[slot]
+        cl['exactly-one-active-partition-in-the-requested-slot'] = active == [slot]
+        cl['partition-type-offset-and-size-cover-the-padded-image'] = p[4] == want_type and int.from_bytes(p[8:12], 'little') == hyb.get('part_offset', 0) and \
+            int.from_bytes(p[12:16], 'little') == len(img) // 512 - hyb.get('part_offset', 0)
+        keep = []
+        for path, data in a.contents.items():
+            t = tree.get(path.encode())
+            keep.append(t is not None and t[2] == len(V.items_of(data)) and Eq(V.mk_bytes(R.file_bytes(im, t[1])), data))
+        cl['still-a-valid-iso-whose-files-read-their-bytes'] = And(not im.problems, *keep)
+        if hyb.get('efi') or hyb.get('mac'):
+            g1 = read_gpt(im, 1, len(img) // 512)
+            cl['primary-gpt-valid'] = g1['sig'] == b'EFI PART' and not im.problems
+            if g1['sig'] == b'EFI PART':
+                g2 = read_gpt(im, g1['backup'], len(img) // 512)
+                cl['backup-gpt-valid-and-mirrored'] = g2['sig'] == b'EFI PART' and g2.get('backup') == 1 and g1['backup'] == len(img) // 512 - 1 and \
+                    g1.get('parts') == g2.get('parts') and g1['guid'] == g2['guid'] and not im.problems
+                efi_t = tree.get(b'/EFI.IMG;1')
+                if efi_t is not None and g1.get('parts'):
+                    first = efi_t[1][0][0] * 4
+                    nsec = -(-efi_t[2] // 2048) * 4
+                    cl['an-efi-partition-delimits-exactly-the-efi-image'] = any(q['first'] == first and q['last'] == first + nsec - 1 for q in g1['parts'])
+        a.problems = list(im.problems)
+        return cl
+
+    def observe(self, c, a, out):
+        return {'kind': out.kind, 'exc': out.exc, 'problems': getattr(a, 'problems', None)}
